@@ -59,6 +59,34 @@ func runC07(c *Ctx) {
 
 	// ---- (iii) token pairing + lockset -------------------------------------
 	all := c.LockPairing("C07.iii-token-pairing", pcachePkg, []string{"ProviderCache.writeLock"})
+	// the token is one token: the channel used as the writers' lock holds exactly one element (with room for more,
+	// that many writers run at once, each publishing a snapshot built without the others' updates)
+	{
+		nTok := 0
+		for _, f := range c.Funcs(pcachePkg) {
+			instrsDeep(f.SSA, func(_ *ssa.Function, in ssa.Instruction) {
+				st, ok := in.(*ssa.Store)
+				if !ok {
+					return
+				}
+				a := c.E(st.Addr)
+				if a.Op != "field" || canonName(a.Name) != "writeLock" || fieldOwner(a) != "ProviderCache" {
+					return
+				}
+				nTok++
+				one := false
+				if mk, isMk := st.Val.(*ssa.MakeChan); isMk {
+					if k, isC := mk.Size.(*ssa.Const); isC && k.Value != nil && k.Value.ExactString() == "1" {
+						one = true
+					}
+				}
+				c.Check(one, "C07.iii-token-pairing", c.short(topFunc(st.Parent()).String())+" › the write token's channel holds one element", st.Pos(), "make(chan struct{}, 1)", "the channel used as the writers' lock is not made with capacity exactly 1: more than one writer can hold 'the' token, and their publications overwrite one another")
+			})
+		}
+		if nTok == 0 {
+			c.Unk("C07.iii-token-pairing", "pcache › write token channel", token.NoPos, "no store to the token field found")
+		}
+	}
 	c.Floor("C07.iii-token-pairing", 3)
 
 	owned := map[*types.Var]string{}
@@ -294,6 +322,23 @@ func c07Snapshots(c *Ctx) {
 					mm = k
 				} else if call, ok := strip(mv).V.(*ssa.Call); ok && returnsFreshMap(c, call.Call.StaticCallee(), 0) {
 					mm = call
+				} else if ph, ok := strip(mv).V.(*ssa.Phi); ok && ph.Parent() == cs.Fn {
+					// 'm := maps.Clone(old); if m == nil { m = make(…) }': fresh on every edge
+					all := len(ph.Edges) > 0
+					for _, e := range ph.Edges {
+						switch ev := unwrapV(e).(type) {
+						case *ssa.MakeMap:
+						case *ssa.Call:
+							if !returnsFreshMap(c, ev.Call.StaticCallee(), 0) {
+								all = false
+							}
+						default:
+							all = false
+						}
+					}
+					if all {
+						mm = ph
+					}
 				}
 				if mm == nil {
 					c.Bad("C07.iv-snapshot-immutable", mk, cs.In.Pos(), "published map is neither fresh in this function nor the unchanged map of the loaded snapshot: "+mv.String())
@@ -766,6 +811,12 @@ func readOnlyMapParam(c *Ctx, call ssa.CallInstruction, m ssa.Value) bool {
 // returnsFreshMap: every return of the unexported helper fn yields a map made
 // in fn that fn itself does not store anywhere or hand on.
 func returnsFreshMap(c *Ctx, fn *ssa.Function, idx int) bool {
+	// maps.Clone: a new map with the same entries (nil for nil)
+	if fn != nil && idx == 0 && strings.HasPrefix(fn.Name(), "Clone") {
+		if o := fn.Origin(); (fn.Pkg != nil && fn.Pkg.Pkg.Path() == "maps") || (o != nil && o.Pkg != nil && o.Pkg.Pkg.Path() == "maps") {
+			return true
+		}
+	}
 	if fn == nil || len(fn.Blocks) == 0 || fn.Object() == nil || fn.Object().Exported() || fn.Pkg == nil || !strings.HasPrefix(fn.Pkg.Pkg.Path(), modPath) {
 		return false
 	}
